@@ -316,4 +316,71 @@ example : runViewsX true ⟨0, 12, [(3, 4), (4, 1)]⟩
       [.transposed, .indexAxis 0 1, .insertAxis 0, .base (.sliceAxis 1 1 3)] =
     some ⟨5, 5, [(1, 12), (2, 4)]⟩ := by decide
 
+/-! ## T3 (continued): `slice_axis` / `clip_dim` / `split` ranges on machine integers -/
+
+namespace M
+
+def strideAt (d : List (U × U)) (axis : Nat) : U := (d.getD axis (0, 0)).2
+
+/-- The offset range `slice_axis(axis, s..s+n)` and `clip_dim` compute on `usize`
+(wrap-around `*`, `+`, the `is_empty()` test on the wrap-around element count); with
+`s = mid`, `n = size - mid` it is also `split`'s `mid_offset` and the right half's length. -/
+def blockRange (d : List (U × U)) (axis : Nat) (s n : U) : U × U :=
+  if len (setSize d axis n) = 0 then (0, 0)
+  else (s * strideAt (setSize d axis n) axis,
+        s * strideAt (setSize d axis n) axis + minDataLen (setSize d axis n))
+
+end M
+
+theorem strideAt_toN (d : List (M.U × M.U)) (axis : Nat) :
+    (M.strideAt d axis).toNat = strideAt (M.toN d) axis := by
+  induction d generalizing axis with
+  | nil => rfl
+  | cons x xs ih =>
+    cases axis with
+    | zero => rfl
+    | succ a =>
+      have := ih a
+      simp only [M.strideAt, strideAt, List.getD_cons_succ, M.toN_cons] at *
+      exact this
+
+/-- **C06.T3n** on an accepted tensor the `usize` evaluation of the block range equals the ideal
+one the model's `sliceAxis` / `clipDim` / `split` use — no product or sum wraps, and the
+wrap-around element count behind `is_empty()` is the true count. -/
+theorem c06_T3_blockRange (d : List (M.U × M.U)) {k : Nat} {m : Bool}
+    (acc : Accepted (M.toN d) k m) {axis : Nat} (s n : M.U) (hax : axis < d.length)
+    (hle : s.toNat + n.toNat ≤ sizeAt (M.toN d) axis) :
+    ((M.blockRange d axis s n).1.toNat, (M.blockRange d axis s n).2.toNat) =
+      (if len (setSize (M.toN d) axis n.toNat) = 0 then (0, 0)
+       else (s.toNat * strideAt (setSize (M.toN d) axis n.toNat) axis,
+             s.toNat * strideAt (setSize (M.toN d) axis n.toNat) axis +
+               minDataLen (setSize (M.toN d) axis n.toNat))) := by
+  have hW := M.isizeMax_lt_W
+  have hax' : axis < (M.toN d).length := by simpa [M.toN] using hax
+  obtain ⟨hlenfit, hrest⟩ := c06_T3_subblock_no_wrap acc hax' hle
+  have hlen : (M.len (M.setSize d axis n)).toNat = len (setSize (M.toN d) axis n.toNat) := by
+    rw [M.len_toNat _ (by rw [setSize_toN]; omega), setSize_toN]
+  unfold M.blockRange
+  by_cases h0 : len (setSize (M.toN d) axis n.toNat) = 0
+  · have : M.len (M.setSize d axis n) = 0 := (M.eq_zero_iff _).mpr (by rw [hlen]; exact h0)
+    rw [if_pos this, if_pos h0]; rfl
+  · have : ¬ M.len (M.setSize d axis n) = 0 := fun h => h0 (by rw [← hlen, h]; rfl)
+    rw [if_neg this, if_neg h0]
+    obtain ⟨h1, h2⟩ := hrest h0
+    rw [strideAt_setSize] at *
+    have hst : (M.strideAt (M.setSize d axis n) axis).toNat = strideAt (M.toN d) axis := by
+      rw [strideAt_toN, setSize_toN, strideAt_setSize]
+    have hmul : (s * M.strideAt (M.setSize d axis n) axis).toNat =
+        s.toNat * strideAt (M.toN d) axis := by
+      rw [M.mul_toNat, hst, Nat.mod_eq_of_lt (by omega)]
+    have hmo : maxOffset (setSize (M.toN d) axis n.toNat) < isizeMax :=
+      Nat.lt_of_le_of_lt (maxOffset_setSize_le _ _ _ (by omega)) acc.offset_fits
+    have hmdl : (M.minDataLen (M.setSize d axis n)).toNat =
+        minDataLen (setSize (M.toN d) axis n.toNat) := by
+      rw [M.minDataLen_toNat _ (by rw [setSize_toN]; omega), setSize_toN]
+    rw [M.add_toNat, hmul, hmdl, Nat.mod_eq_of_lt (by omega)]
+
+/-- Non-vacuity: rows 1..3 of a 3×4 tensor on machine integers. -/
+example : M.blockRange [(3, 4), (4, 1)] 0 1 2 = (4, 12) := by decide
+
 end RtenVerif.TensorBounds
